@@ -90,13 +90,13 @@ theorem prepareForTx_inv (m : μ) (pkt : PacketParams) (power : Int) (payload : 
     refine mwp_bind (mwp_cfg (S.setPayload _) e6.clean (e46.aw a4) (fun _ t7 e7 _ => ?_)
       (fun a t' e' ha' => ⟨i4.ext (e46.trans e'), ha'⟩))
     have e47 := e46.trans e7
-    refine mwp_bind (mwp_setMode ?_)
     have it : (needsFor reg tcxo).tx.le t7.items :=
       tx_items (e47.le (i4.cold c4)) (((e3.trans e4).trans e47).le g2) ((e6.trans e7).le g5) (e7.le g6)
     have i7 : Inv reg tcxo sb { d4 with radioMode := .transmit } t7 :=
       ⟨e7.clean, Link.of_aw (e47.aw a4), fun hc => e47.le (i4.cold hc), it⟩
-    exact mwp_cfg (S.setIrqParams _) e7.clean (e47.aw a4) (fun _ t8 e8 _ => ⟨i7.ext e8, rfl⟩)
-      (fun a t' e' ha' => ⟨i7.ext e', ha'⟩)
+    refine mwp_bind (mwp_cfg (S.setIrqParams _) e7.clean (e47.aw a4) (fun _ t8 e8 _ => ?_)
+      (fun a t' e' ha' => ⟨i4.ext (e47.trans e'), ha'⟩))
+    exact mwp_setMode ⟨i7.ext e8, rfl⟩
 
 theorem txLoop_inv (fuel : Nat) {d : DriverState σ} {t : ChipTrack} (h : Inv reg tcxo sb d t) (hm : d.radioMode = .transmit) :
     mwp kind (needsFor reg tcxo) (txLoop rk fuel) (fun _ d' t' => Inv reg tcxo sb d' t') (AbI4 reg tcxo sb False) d t := by
@@ -149,12 +149,12 @@ theorem prepareForRx_inv (mode : RxMode) (m : μ) (pkt : PacketParams)
   refine mwp_bind (mwp_cfg (S.setChannel _) e3.clean (e13.aw a1) (fun _ t4 e4 g4 => ?_)
     (fun a t' e' ha' => ⟨i1.ext (e13.trans e'), ha'⟩))
   have e14 := e13.trans e4
-  refine mwp_bind (mwp_setMode ?_)
   have it : (needsFor reg tcxo).rx.le t4.items := rx_items (e14.le (i1.cold c1)) ((e3.trans e4).le g2) g4
   have i4 : Inv reg tcxo sb { d1 with radioMode := .receive mode } t4 :=
     ⟨e4.clean, Link.of_aw (e14.aw a1), fun hc => e14.le (i1.cold hc), it⟩
-  exact mwp_cfg (S.setIrqParams _) e4.clean (e14.aw a1) (fun _ t5 e5 _ => ⟨i4.ext e5, rfl⟩)
-    (fun a t' e' ha' => ⟨i4.ext e', ha'⟩)
+  refine mwp_bind (mwp_cfg (S.setIrqParams _) e4.clean (e14.aw a1) (fun _ t5 e5 _ => ?_)
+    (fun a t' e' ha' => ⟨i1.ext (e14.trans e'), ha'⟩))
+  exact mwp_setMode ⟨i4.ext e5, rfl⟩
 
 theorem prepareForCad_inv (m : μ) {d : DriverState σ} {t : ChipTrack} (h : Inv reg tcxo sb d t) :
     mwp kind (needsFor reg tcxo) (prepareForCad rk m)
@@ -167,12 +167,12 @@ theorem prepareForCad_inv (m : μ) {d : DriverState σ} {t : ChipTrack} (h : Inv
   refine mwp_bind (mwp_cfg (S.setChannel _) e2.clean (e2.aw a1) (fun _ t3 e3 g3 => ?_)
     (fun a t' e' ha' => ⟨i1.ext (e2.trans e'), ha'⟩))
   have e13 := e2.trans e3
-  refine mwp_bind (mwp_setMode ?_)
   have it : (needsFor reg tcxo).cad.le t3.items := cad_items (e13.le (i1.cold c1)) (e3.le g2) g3
   have i3 : Inv reg tcxo sb { d1 with radioMode := .cad } t3 :=
     ⟨e3.clean, Link.of_aw (e13.aw a1), fun hc => e13.le (i1.cold hc), it⟩
-  exact mwp_cfg (S.setIrqParams _) e3.clean (e13.aw a1) (fun _ t4 e4 _ => i3.ext e4)
-    (fun a t' e' ha' => ⟨i3.ext e', ha'⟩)
+  refine mwp_bind (mwp_cfg (S.setIrqParams _) e3.clean (e13.aw a1) (fun _ t4 e4 _ => ?_)
+    (fun a t' e' ha' => ⟨i1.ext (e13.trans e'), ha'⟩))
+  exact mwp_setMode (i3.ext e4)
 
 omit S in
 /-- the state after `do_rx`: `radio_mode` is `Receive(mode)` and the chip may be duty-cycling -/
